@@ -165,8 +165,12 @@ def check(ctx) -> Result:
     else:
         res.frozen(False, "N-factorial-normalisation", "vector_factorial", vf.site(), vf.qualname, "", "factorial product idiom not recognised", construct="vector_factorial")
     # zero-photon input shortcut yields the circuit-mode vacuum with probability 1
-    z = [n_ for n_ in walk_no_nested(b.node) if isinstance(n_, ast.If) and src(n_.test).replace(" ", "") == "input_state.n_photons==0"]
-    okz = bool(z) and any(isinstance(s, ast.Assign) and src(s.value).replace(" ", "") in ("{State([0]*circuit.n_modes):1.0}", "{State([0]*circuit.n_modes):1}") for s in z[0].body)
-    res.add(okz, "G-vacuum-input", "zero-photon input", b.site(), b.qualname, "vacuum input returns the n_modes vacuum with probability one", "vacuum-input shortcut changed", construct=src(z[0])[:120] if z else "")
+    z = [n_ for n_ in walk_no_nested(b.node) if isinstance(n_, ast.If) and src(n_.test).replace(" ", "") in ("input_state.n_photons==0", "0==input_state.n_photons", "notinput_state.n_photons")]
+    dicts = [d for n_ in z for s_ in n_.body for d in ast.walk(s_) if isinstance(d, ast.Dict) and len(d.keys) == 1] if z else []
+    if not z or not dicts:
+        res.frozen(False, "G-vacuum-input", "zero-photon input", b.site(), b.qualname, "", "vacuum-input shortcut (if input_state.n_photons == 0: {State([0] * n_modes): 1}) not recognised", construct="")
+    else:
+        okz = all(src(d).replace(" ", "") in ("{State([0]*circuit.n_modes):1.0}", "{State([0]*circuit.n_modes):1}") for d in dicts)
+        res.add(okz, "G-vacuum-input", "zero-photon input", b.site(z[0]), b.qualname, "vacuum input returns the n_modes vacuum with probability one", "vacuum-input shortcut does not yield the circuit-mode vacuum with probability one", construct=src(z[0])[:120])
     # Sampler: empty distribution special case stores full-mode vacuum with weight 1
     return res
